@@ -196,3 +196,11 @@ var _ = shared.NewCounter
 //@   by-induction [C10] the failure flag of every test counter is only ever set while VCL runs
 //@   preserves F:tester.TestCase. E:*tester.TestCase F:tester.Tester.counter
 //@   ensures [failure-flag-monotone C10] forall c *shared.Counter :: old(c.g_failed) ==> c.g_failed
+
+// ---- C08: include resolution of the simulator is bounded ---------------------------------------------------
+//@ func (*Interpreter).resolveIncludeStatement [C08]
+//@   recursion-bounded [C08]
+//@   requires i != nil && i.ctx != nil && i.includeDepth >= 0 && i.includeDepth <= limitations.MaxIncludeDepth
+//@   decreases limitations.MaxIncludeDepth - i.includeDepth
+//@   ensures [depth-restored C08] i.includeDepth == old(i.includeDepth)
+//@   loop 1 invariant i.includeDepth == old(i.includeDepth) && i.ctx != nil
